@@ -42,6 +42,13 @@ Theorem C18_choice_uniform_classes : forall (A : Type) (l : list A) d m r, one_o
 Proof. exact one_of_class_prob. Qed.
 Print Assumptions C18_choice_uniform_classes.
 
+(* the choice reports the number of members it was built from: every member can be chosen and nothing else, the number
+   of outcomes is the length of the collection, and the outcomes' probabilities add up to one *)
+Theorem C18_choice_support_is_the_collection : forall (A : Type) (l : list A) d, one_of l = Some d ->
+  (forall i, possible d i <-> (i < length l)%nat) /\ length d = length l /\ mass d == 1.
+Proof. exact one_of_support. Qed.
+Print Assumptions C18_choice_support_is_the_collection.
+
 Theorem C18_empty_rejected : forall A : Type, @one_of A [] = None.
 Proof. exact one_of_empty_rejected. Qed.
 Print Assumptions C18_empty_rejected.
